@@ -21,6 +21,10 @@ MaskB(n, p) == [i \in 1..n |-> LET full == p \div DigitBits  rem == p % DigitBit
 LexLess(a, b) == \E i \in 1..Len(a) : a[i] < b[i] /\ \A j \in 1..(i - 1) : a[j] = b[j]
 LexLE(a, b)   == a = b \/ LexLess(a, b)
 Num(a) == LET S[i \in 0..Len(a)] == IF i = 0 THEN 0 ELSE S[i - 1] * Radix + a[i] IN S[Len(a)]
+(* a + k over the digits (k >= 0): the carries from the least significant digit upwards; Wraps = the sum leaves the address space *)
+Carry(a, k) == LET n == Len(a)  C[i \in 0..n] == IF i = 0 THEN k ELSE (a[n - i + 1] + C[i - 1]) \div Radix IN C
+AddK(a, k) == LET n == Len(a)  c == Carry(a, k) IN [j \in 1..n |-> (a[j] + c[n - j]) % Radix]
+Wraps(a, k) == Carry(a, k)[Len(a)] # 0
 (* real-width range derived from address a and prefix length p / mask m: its two ends and membership *)
 FirstB(a, m) == AndB(a, m)
 LastB(a, m)  == OrNotB(a, m)
